@@ -59,6 +59,10 @@ def cases(tier: str) -> list[dict[str, Any]]:
             ("curly-quote-end", [[V.tok(0), V.tok(1) + ".\u2019"], [V.tok(2), V.tok(3) + "!\u201d"], [V.tok(4), V.tok(5) + "\u2019."], [V.tok(6)]]),
             ("quote-paren-then-punct", [[V.tok(0), V.tok(1) + ")?"], [V.tok(2), V.tok(3) + '"!'], [V.tok(4), V.tok(5) + "')?"[0:1] + "?"], [V.tok(6), V.tok(7) + ")."], [V.tok(8)]]),
             ("non-ascii-end", [[V.tok(0), "caf\u00e9."], [V.tok(1), "\u043c\u0438\u0440!"], [V.tok(2), "na\u00efve?"], [V.tok(3)]]),
+            ("code-with-backtick", [[V.tok(0), "``x`y``", V.tok(1) + "."], [V.tok(2), V.tok(3) + "."], [V.tok(4), V.tok(5) + "?"], [V.tok(6)]]),
+            ("escaped-backtick", [[V.tok(0), chr(92) + "`", V.tok(1) + "."], [V.tok(2), V.tok(3) + "!"], [V.tok(4), V.tok(5) + "."], [V.tok(6)]]),
+            ("code-spans-between", [[V.tok(0), "`x`", V.tok(1) + "."], [V.tok(2), "`y`."], [V.tok(3), V.tok(4) + "."], [V.tok(5)]]),
+            ("emphasis-and-link-ends", [[V.tok(0), "*" + V.tok(1) + ".*"], [V.tok(2), "[x](u)."], [V.tok(3), "**" + V.tok(4) + "**."], [V.tok(5), V.tok(6) + "."], [V.tok(7)]]),
             ("upper-or-digit-non-end", [[V.tok(0), "ABC.", V.tok(1), "x1.", V.tok(2), "A.", V.tok(3) + "."], [V.tok(4)]]),
         ]:
             cs.append(dict(key=f"place/{ctx}/{name}", kind="place", ctx=ctx, sents=sents))
